@@ -162,7 +162,7 @@ func (s *c14skel) stmt(st ast.Stmt, d int) {
 				return
 			}
 			if t := c14text(p, x); strings.HasPrefix(t, "e.Set(") || strings.HasPrefix(t, "iter.returnIter(") ||
-				strings.Contains(t, "e.val.String()") || strings.Contains(t, "valueString()") || strings.Contains(t, "promiseCap.re") || strings.Contains(t, "capability.re") || strings.Contains(t, "leaveAbrupt()") {
+				strings.Contains(t, "e.val.String()") || strings.Contains(t, "valueString()") || strings.Contains(t, "promiseCap.re") || strings.Contains(t, "capability.re") || strings.Contains(t, "nextThrow(") || strings.Contains(t, "leaveAbrupt()") {
 				s.add(d, "%s", t)
 				return
 			}
@@ -262,7 +262,7 @@ func c14find(n ast.Node, pred func(ast.Node) bool) ast.Node {
 
 func genC14(p *Pkg) (map[string]string, error) {
 	var b strings.Builder
-	b.WriteString("-- GENERATED by extract/c14.go from /repo — do not edit.\nnamespace GojaModel.Generated.C14\n\n")
+	b.WriteString("-- GENERATED by extract/c14.go from /repo — do not edit.\nset_option linter.unusedVariables false\nnamespace GojaModel.Generated.C14\n\n")
 
 	// ---- exceptionFromValue type switch
 	fd := p.FuncDecl("vm", "exceptionFromValue")
@@ -339,6 +339,7 @@ func genC14(p *Pkg) (map[string]string, error) {
 		{"Runtime", "leave", "skel_leave"},
 		{"vm", "_restoreStacks", "skel_restoreStacks"},
 		{"generatorObject", "step", "skel_generatorObjectStep"},
+		{"generatorObject", "tryCallDelegated", "skel_tryCallDelegated"},
 		{"asyncRunner", "step", "skel_asyncRunnerStep"},
 		{"Exception", "Error", "skel_ExceptionError"},
 		{"Exception", "String", "skel_ExceptionString"},
@@ -477,6 +478,206 @@ func genC14(p *Pkg) (map[string]string, error) {
 	}
 	b.WriteString(c14leanList("recoverSites", sites))
 
+	// ---- handleThrow's per-frame decision as a Lean FUNCTION (decision logic, not text): the ordered if-chain of the
+	// loop body over (catchPos, finallyPos, ex == nil)
+	dec, err := c14handleThrowDecision(p)
+	if err != nil {
+		return nil, err
+	}
+	b.WriteString(dec)
+	// ---- `_throw.exec`: the condition under which an errorObject's own stack is reused
+	d = p.FuncDecl("_throw", "exec")
+	n = c14find(d, func(x ast.Node) bool {
+		is, ok := x.(*ast.IfStmt)
+		return ok && strings.Contains(c14text(p, is.Cond), "e.stack")
+	})
+	if n == nil {
+		return nil, fmt.Errorf("_throw.exec: no condition on e.stack")
+	}
+	switch c14text(p, n.(*ast.IfStmt).Cond) {
+	case "len(e.stack) > 0":
+		b.WriteString("/-- `_throw.exec` reuses the own stack of an errorObject iff … (stackLen = len(e.stack), allocated = e.stack != nil) -/\ndef throwReusesOwnStack (stackLen : Nat) (allocated : Bool) : Bool := decide (stackLen > 0)\n\n")
+	case "e.stack != nil":
+		b.WriteString("def throwReusesOwnStack (stackLen : Nat) (allocated : Bool) : Bool := allocated\n\n")
+	default:
+		return nil, fmt.Errorf("_throw.exec: condition %q not in the translatable subset", c14text(p, n.(*ast.IfStmt).Cond))
+	}
+
+	// ---- wrapReflectFunc's error branch as a decision FUNCTION over (err is *Exception, isUncatchableException(err))
+	d = p.FuncDecl("Runtime", "wrapReflectFunc")
+	n = c14find(d, func(x ast.Node) bool {
+		is, ok := x.(*ast.IfStmt)
+		return ok && c14text(p, is.Cond) == "!last.IsNil()"
+	})
+	if n == nil {
+		return nil, fmt.Errorf("wrapReflectFunc: `if !last.IsNil()` not found")
+	}
+	{
+		var out strings.Builder
+		out.WriteString("/-- wrapReflectFunc, non-nil error result: what is panicked, by the ordered checks of the source. -/\ndef wrapReflectDecision (isException isUncatchable : Bool) : String :=\n")
+		stmts := n.(*ast.IfStmt).Body.List
+		if len(stmts) < 2 || !strings.HasPrefix(c14text(p, stmts[0]), "err := last.Interface().(error)") {
+			return nil, fmt.Errorf("wrapReflectFunc: error branch not in the translatable subset (first statement)")
+		}
+		for _, st := range stmts[1:] {
+			switch x := st.(type) {
+			case *ast.IfStmt:
+				cond := ""
+				switch {
+				case x.Init != nil && c14text(p, x.Init) == "_, ok := err.(*Exception)" && c14text(p, x.Cond) == "ok":
+					cond = "isException"
+				case x.Init == nil && c14text(p, x.Cond) == "isUncatchableException(err)":
+					cond = "isUncatchable"
+				default:
+					return nil, fmt.Errorf("wrapReflectFunc: condition %q not in the translatable subset", c14text(p, x))
+				}
+				if len(x.Body.List) != 1 || x.Else != nil {
+					return nil, fmt.Errorf("wrapReflectFunc: branch body not in the translatable subset")
+				}
+				fmt.Fprintf(&out, "  if %s then %s else\n", cond, LeanString(c14text(p, x.Body.List[0])))
+			case *ast.ExprStmt:
+				fmt.Fprintf(&out, "  %s\n\n", LeanString(c14text(p, x)))
+			default:
+				return nil, fmt.Errorf("wrapReflectFunc: statement %q not in the translatable subset", c14text(p, st))
+			}
+		}
+		b.WriteString(out.String())
+	}
+	// ---- the deferred recover of runWrapped and of RunProgram as a decision FUNCTION over (asUncatchableException(x) != nil)
+	for _, rf := range []struct{ name, lean string }{{"runWrapped", "runWrappedRecoverDecision"}, {"RunProgram", "runProgramRecoverDecision"}} {
+		d = p.FuncDecl("Runtime", rf.name)
+		n = c14find(d, func(x ast.Node) bool {
+			is, ok := x.(*ast.IfStmt)
+			return ok && is.Init != nil && c14text(p, is.Init) == "ex := asUncatchableException(x)"
+		})
+		if n == nil {
+			return nil, fmt.Errorf("%s: `if ex := asUncatchableException(x); …` not found", rf.name)
+		}
+		is := n.(*ast.IfStmt)
+		els, ok := is.Else.(*ast.BlockStmt)
+		if c14text(p, is.Cond) != "ex != nil" || !ok || len(els.List) != 1 || c14text(p, els.List[0]) != "panic(x)" ||
+			len(is.Body.List) == 0 || c14text(p, is.Body.List[0]) != "err = ex" {
+			return nil, fmt.Errorf("%s: recover block not in the translatable subset", rf.name)
+		}
+		fmt.Fprintf(&b, "/-- %s's deferred recover: the error is returned iff asUncatchableException recognises the panic value, else re-panicked. -/\ndef %s (recognised : Bool) : String := if recognised then \"err = ex\" else \"panic(x)\"\n\n", rf.name, rf.lean)
+	}
+
 	b.WriteString("end GojaModel.Generated.C14\n")
 	return map[string]string{"C14_PanicKinds.lean": b.String()}, nil
+}
+
+
+// c14cond translates a Go boolean expression over tf.catchPos / tf.finallyPos / ex / tryPanicMarker / int literals
+// into a Lean Bool term over (c f : Int) (exNil : Bool).
+func c14cond(p *Pkg, e ast.Expr) (string, error) {
+	switch x := e.(type) {
+	case *ast.ParenExpr:
+		return c14cond(p, x.X)
+	case *ast.BinaryExpr:
+		op := x.Op.String()
+		if op == "&&" || op == "||" {
+			l, err := c14cond(p, x.X)
+			if err != nil {
+				return "", err
+			}
+			r, err := c14cond(p, x.Y)
+			if err != nil {
+				return "", err
+			}
+			return "(" + l + " " + op + " " + r + ")", nil
+		}
+		lt, rt := c14text(p, x.X), c14text(p, x.Y)
+		if lt == "ex" && rt == "nil" {
+			switch op {
+			case "==":
+				return "exNil", nil
+			case "!=":
+				return "(!exNil)", nil
+			}
+		}
+		term := func(t string) (string, bool) {
+			switch t {
+			case "tf.catchPos":
+				return "c", true
+			case "tf.finallyPos":
+				return "f", true
+			case "tryPanicMarker":
+				return "(-2 : Int)", true
+			case "-1":
+				return "(-1 : Int)", true
+			case "0":
+				return "(0 : Int)", true
+			}
+			return "", false
+		}
+		l, ok1 := term(lt)
+		r, ok2 := term(rt)
+		if ok1 && ok2 {
+			switch op {
+			case "==":
+				return "(" + l + " == " + r + ")", nil
+			case "!=":
+				return "(" + l + " != " + r + ")", nil
+			case ">=":
+				return "decide (" + l + " ≥ " + r + ")", nil
+			case ">":
+				return "decide (" + l + " > " + r + ")", nil
+			case "<":
+				return "decide (" + l + " < " + r + ")", nil
+			}
+		}
+	}
+	return "", fmt.Errorf("handleThrow: condition %q not in the translatable subset", c14text(p, e))
+}
+
+func c14handleThrowDecision(p *Pkg) (string, error) {
+	fd := p.FuncDecl("vm", "handleThrow")
+	if fd == nil {
+		return "", fmt.Errorf("vm.handleThrow not found")
+	}
+	var loop *ast.ForStmt
+	for _, st := range fd.Body.List {
+		if f, ok := st.(*ast.ForStmt); ok {
+			loop = f
+		}
+	}
+	if loop == nil {
+		return "", fmt.Errorf("handleThrow: no loop")
+	}
+	var b strings.Builder
+	b.WriteString("/-- What handleThrow does with the top try frame, as the ordered if-chain of its loop body. c = tf.catchPos, f = tf.finallyPos (tryPanicMarker = -2). -/\ndef handleThrowDecision (c f : Int) (exNil : Bool) : String :=\n")
+	n := 0
+	for _, st := range loop.Body.List {
+		is, ok := st.(*ast.IfStmt)
+		if !ok {
+			continue
+		}
+		body := c14text(p, is.Body)
+		action := ""
+		switch {
+		case strings.Contains(body, "continue"):
+			action = "continue"
+		case strings.Contains(body, "break"):
+			action = "break"
+		case strings.Contains(body, "return nil") && strings.Contains(body, "vm.push(ex.val)"):
+			action = "caught"
+		case strings.Contains(body, "return nil") && strings.Contains(body, "tf.exception = ex"):
+			action = "finally"
+		case !strings.Contains(body, "return") && !strings.Contains(body, "panic("):
+			continue // pure state restoration (call stack), no decision
+		default:
+			return "", fmt.Errorf("handleThrow: if-body not recognised: %s", body)
+		}
+		cond, err := c14cond(p, is.Cond)
+		if err != nil {
+			return "", err
+		}
+		fmt.Fprintf(&b, "  if %s then %s else\n", cond, LeanString(action))
+		n++
+	}
+	if n != 4 {
+		return "", fmt.Errorf("handleThrow: expected 4 decisions in the loop body, found %d", n)
+	}
+	b.WriteString("  \"next-iteration\"\n\n")
+	return b.String(), nil
 }
